@@ -235,6 +235,19 @@ def exits_of(ev: Evaluator, fi: FuncInfo):
 
 
 # --------------------------------------------------------------------------- element-type (dtype) closure, shared by the numeric properties
+TOLERANT = ('numpy.isclose', 'numpy.allclose', 'math.isclose', 'numpy.testing.assert_allclose')
+
+
+def tolerance_heads(v) -> List[str]:
+    """tolerance-based comparisons inside a value (their default atol / rtol tie the outcome to the scale of the data: an exact or
+    affine-invariant clause cannot rest on them)"""
+    return sorted({t.head[4:] for t in walk_vals(v) if isinstance(t, Term) and t.head.startswith('lib:') and t.head[4:] in TOLERANT})
+
+
+def tolerance_events(ev) -> list:
+    return [e for e in ev.events if e.kind == 'lib' and e.data.get('name') in TOLERANT]
+
+
 def dt_function(ctx, rule: str, qualname: str, arrays, consts=None, what=None, inline=None):
     """DT1/DT2 (dtypes.py) over one library function evaluated with caller-typed arrays: real values are never stored into, or cast to,
     a buffer that keeps the caller's element type"""
